@@ -37,10 +37,11 @@ import (
 // ------------------------------------------------------------------ scenarios
 
 type threadSpec struct {
-	Name   string
-	Req    reqSpec
-	Same   bool // presents the secret under test (false: another value in the same store)
-	Honest bool // a correct request (succeeds when it is the only one)
+	Carries []string // multi-secret scenarios: names of the secrets the request carries, in order
+	Name    string
+	Req     reqSpec
+	Same    bool // presents the secret under test (false: another value in the same store)
+	Honest  bool // a correct request (succeeds when it is the only one)
 }
 
 type kindSpec struct {
@@ -60,11 +61,12 @@ type scenario struct {
 	K       *kindSpec
 	Name    string
 	Threads []threadSpec
-	Bound   int       // preemption bound, -1 = complete space
-	Glue    bool      // operations on request-private keys take no scheduling point of their own (see vstore.gluePrivate)
-	Mode    string    // back-end answer semantics ("" = go-cache, memcached, redis)
-	Faults  []faultAt // environment answers: these store operations are answered with a generic store error
-	Big     bool      // explored by all shards together (level-1 subtrees dealt round-robin)
+	Bound   int        // preemption bound, -1 = complete space
+	Glue    bool       // operations on request-private keys take no scheduling point of their own (see vstore.gluePrivate)
+	Multi   *multiKind // requests that carry several secrets (multi_test.go); nil = one secret per request
+	Mode    string     // back-end answer semantics ("" = go-cache, memcached, redis)
+	Faults  []faultAt  // environment answers: these store operations are answered with a generic store error
+	Big     bool       // explored by all shards together (level-1 subtrees dealt round-robin)
 }
 
 type replayCase struct {
@@ -240,6 +242,19 @@ func modeTag(mode string) string {
 
 // judge evaluates one finished execution against the statement.
 func (h *harness) judge(sc *scenario, x *sched.Exec, st *vstore, out []response, states stateSet) (verdict, error) {
+	ops, tids, err := h.attribute(sc, x, st, states)
+	if err != nil {
+		return verdict{}, err
+	}
+	if sc.Multi != nil {
+		return h.judgeMulti(sc, x, ops, tids, out), nil
+	}
+	return h.judgeSingle(sc, x, st, ops, tids, out), nil
+}
+
+// attribute maps every logged store operation of an execution to the harness thread that performed it (and records
+// the abstract states passed through).
+func (h *harness) attribute(sc *scenario, x *sched.Exec, st *vstore, states stateSet) ([]opRec, []int, error) {
 	zero := st.zeroOps
 	ops := st.managedOps()
 	// attribute every logged operation to its thread: a thread's start step performs its first operation (merged),
@@ -261,22 +276,22 @@ func (h *harness) judge(sc *scenario, x *sched.Exec, st *vstore, out []response,
 				continue // the request never reached the store
 			}
 			if j >= len(ops) || !ops[j].Merged {
-				return verdict{}, fmt.Errorf("start step of thread %d: its first operation is not in the log", id)
+				return nil, nil, fmt.Errorf("start step of thread %d: its first operation is not in the log", id)
 			}
 			take(id)
 			continue
 		}
 		if j >= len(ops) || ops[j].Merged || ops[j].Glued || !strings.HasPrefix(tr[i+1:], ops[j].Op+" ") {
-			return verdict{}, fmt.Errorf("trace step %q does not match the logged operations (position %d of %d)", tr, j, len(ops))
+			return nil, nil, fmt.Errorf("trace step %q does not match the logged operations (position %d of %d)", tr, j, len(ops))
 		}
 		take(id)
 	}
 	if len(tids) != len(ops) {
-		return verdict{}, fmt.Errorf("%d scheduled operations but %d logged", len(tids), len(ops))
+		return nil, nil, fmt.Errorf("%d scheduled operations but %d logged", len(tids), len(ops))
 	}
 	for i, o := range ops {
 		if o.Who != tids[i] { // two independent attributions (the scheduler's trace, the wrapper's baton tracking) must agree
-			return verdict{}, fmt.Errorf("operation %d (%s %s): trace says thread %d, store wrapper says %d", i, o.Op, st.name(o.Key), tids[i], o.Who)
+			return nil, nil, fmt.Errorf("operation %d (%s %s): trace says thread %d, store wrapper says %d", i, o.Op, st.name(o.Key), tids[i], o.Who)
 		}
 	}
 	// the independence argument behind glued operations: their keys are private to one request
@@ -286,7 +301,7 @@ func (h *harness) judge(sc *scenario, x *sched.Exec, st *vstore, out []response,
 			continue
 		}
 		if t, seen := owner[o.Key]; seen && t != tids[i] && st.gluePrivate {
-			return verdict{}, fmt.Errorf("key %s, treated as private to one request, was accessed by threads %d and %d", st.name(o.Key), t, tids[i])
+			return nil, nil, fmt.Errorf("key %s, treated as private to one request, was accessed by threads %d and %d", st.name(o.Key), t, tids[i])
 		}
 		owner[o.Key] = tids[i]
 	}
@@ -299,6 +314,11 @@ func (h *harness) judge(sc *scenario, x *sched.Exec, st *vstore, out []response,
 			states.add(sc.Name + "|" + strings.Join(hist, "|") + "|" + o.After)
 		}
 	}
+	return ops, tids, nil
+}
+
+// judgeSingle: every thread presents one secret; the oracle of the statement for one value.
+func (h *harness) judgeSingle(sc *scenario, x *sched.Exec, st *vstore, ops []opRec, tids []int, out []response) verdict {
 	v := verdict{}
 	for i, th := range sc.Threads {
 		v.Statuses = append(v.Statuses, out[i].Status)
@@ -307,7 +327,7 @@ func (h *harness) judge(sc *scenario, x *sched.Exec, st *vstore, out []response,
 		}
 	}
 	if len(v.Successes) < 2 {
-		return v, nil
+		return v
 	}
 	// minimal shape of the interleaving: where do the successful requests' reads of the secret lie relative to the
 	// first burning operation (delete for take-once secrets, set for remember-as-used secrets) on it?
@@ -360,7 +380,7 @@ func (h *harness) judge(sc *scenario, x *sched.Exec, st *vstore, out []response,
 		v.What = fmt.Sprintf("%s: %d of %d concurrent requests presenting the same secret succeeded although the store answered %s (%s); schedule %v",
 			sc.Name, len(v.Successes), len(sc.Threads), desc, shape, x.Choices())
 	}
-	return v, nil
+	return v
 }
 
 // faultDesc names the store errors that were answered in a run, in order: "<op>-error" (the operation did not take
@@ -440,6 +460,9 @@ func (h *harness) explore(sc *scenario, replay []int) {
 		}
 		steps += int64(len(x.Trace))
 		oc := fmt.Sprintf("%s%s:%d-of-%d-succeed", sc.K.Kind, modeTag(sc.Mode), len(v.Successes), len(sc.Threads))
+		if sc.Multi != nil {
+			oc = "multi-secret:" + oc
+		}
 		if len(sc.Faults) == 0 {
 			r.AddExtra("schedules "+sc.Name, 1)
 			if len(v.Successes) >= 2 {
@@ -926,7 +949,10 @@ func estimate(sc *scenario) int {
 	n, total := 1, 0
 	for _, th := range sc.Threads {
 		k := ops
-		if !th.Honest {
+		if sc.Multi != nil {
+			k = 2*len(th.Carries) + 1
+		}
+		if !th.Honest && sc.Multi == nil {
 			k = 2
 		}
 		for i := 1; i <= k; i++ {
@@ -999,7 +1025,10 @@ func TestVerifC05(t *testing.T) {
 		"environment answers: every single store operation (two in the thorough tier) of the sequential scenarios and of the complete " +
 		"2-request schedule spaces is answered with a generic store error, with and - for writes - without the operation taking effect; " +
 		"back-end answer semantics: the schedule spaces, sequential clauses and answered-error runs are repeated with the bottom store " +
-		"answering like memcached (Get / Delete of a missing key -> memcache.ErrCacheMiss) and like redis (Get -> store.NotFound(redis.Nil), Delete -> nil)")
+		"answering like memcached (Get / Delete of a missing key -> memcache.ErrCacheMiss) and like redis (Get -> store.NotFound(redis.Nil), Delete -> nil); " +
+		"requests carrying several secrets (vp_token-bearer assertion arrays, OpenID4VP vp_token arrays): every sequence of 2 requests (thorough: also 3) " +
+		"of up to 3 secrets each, every position a used, fresh or repeated secret, up to renaming; and the complete 2-request schedule spaces of requests " +
+		"of up to 2 secrets with a secret in common")
 	r.Assume("the bottom store is the in-memory go-cache store; the memcached and redis back-ends are represented by their ANSWER SEMANTICS " +
 		"(what Get / Delete of a missing key answer, as gocache's memcache and redis stores v4.2.2 surface it) - their servers, key " +
 		"restrictions, value types and second-granular expiry are not")
@@ -1031,6 +1060,20 @@ func TestVerifC05(t *testing.T) {
 		h.w.mode = mode
 		scs := append(h.scenarios(ks), h.faultScenarios(ks)...)
 		h.w.mode = modeGoCache
+		var multi []*scenario
+		if mode == modeGoCache {
+			// requests that carry several secrets (multi_test.go)
+			mks := h.multiKinds(ks)
+			multi = h.multiScenarios(mks)
+			for _, mk := range mks {
+				mk, name := mk, "multi/seq/"+mk.K.Kind
+				items = append(items, item{name: name, weight: 3000, run: func() { h.multiSequential(mk, name, 2, 3) }})
+				if r.Thorough() {
+					name3 := "multi/seq3/" + mk.K.Kind
+					items = append(items, item{name: name3, weight: 8000, run: func() { h.multiSequential(mk, name3, 3, 2) }})
+				}
+			}
+		}
 		for _, sc := range scs {
 			sc := sc
 			if mode != modeGoCache {
@@ -1050,6 +1093,11 @@ func TestVerifC05(t *testing.T) {
 			}
 			allScenarios = append(allScenarios, sc)
 			items = append(items, item{name: sc.Name, big: sc.Big, weight: estimate(sc), run: func() { h.explore(sc, nil) }})
+		}
+		for _, sc := range multi {
+			sc := sc
+			allScenarios = append(allScenarios, sc)
+			items = append(items, item{name: sc.Name, weight: estimate(sc), run: func() { h.explore(sc, nil) }})
 		}
 		for _, kn := range kindOrder {
 			k, name := ks[kn], prefix+"fault/seq/"+kn+"/replay"
